@@ -166,8 +166,10 @@ impl CsdV1 {
 
     /// Returns the card capacity in 512-byte blocks
     pub fn card_capacity_blocks(&self) -> u32 {
-        let multiplier = self.device_size_multiplier() + self.read_block_length() - 7;
-        (self.device_size() + 1) << multiplier
+        // Computed from the byte count: the register comes from the card,
+        // and field values that no real card has (a block length below 128
+        // bytes) must not make the arithmetic underflow.
+        u32::try_from(self.card_capacity_bytes() / 512).unwrap_or(u32::MAX)
     }
 }
 
@@ -209,7 +211,8 @@ impl CsdV2 {
 
     /// Returns the card capacity in 512-byte blocks
     pub fn card_capacity_blocks(&self) -> u32 {
-        (self.device_size() + 1) * 1024
+        // the largest value of the 22-bit size field gives 2^32 blocks
+        u32::try_from(self.card_capacity_bytes() / 512).unwrap_or(u32::MAX)
     }
 }
 
